@@ -6,6 +6,18 @@ use std::cmp::Ordering;
 use conserve::Apath;
 use serde_json::{json, Value};
 
+pub fn dispatch(mode: &str, kind: &str, input: Option<&Value>) -> Option<Value> {
+    Some(match (mode, kind) {
+        ("search", "apath_prefix") => search_prefix(),
+        ("replay", "apath_prefix") => replay_prefix(input?),
+        ("search", "apath_cmp") => search_cmp(),
+        ("replay", "apath_cmp") => replay_cmp(input?),
+        ("search", "apath_valid") => search_valid(),
+        ("replay", "apath_valid") => replay_valid(input?),
+        _ => return None,
+    })
+}
+
 /// Component alphabet: bytes below and above '/', multi-byte UTF-8, shared prefixes.
 const COMPS: &[&str] = &["a", "ab", "a.b", "a b", "b", "é", "éa", "日", "-", "~", "a-", "0"];
 
